@@ -20,6 +20,53 @@ func main() {
 	conjSections(r)
 	mcSections(r)
 
+	// clauses claimed (property statement) and the counters they rest on
+	for _, k := range []string{"translate", "scale", "vecscale", "matrix", "rotation", "joined"} {
+		for _, d := range []string{"laws3d.", "laws2d."} {
+			r.Require(d+k+".inverse_after_apply", 1000)
+			r.Require(d+k+".apply_after_inverse", 1000)
+			r.Require(d+k+".bounds_points", 5000)
+		}
+	}
+	for _, k := range []string{"squeeze", "pinch", "smart"} {
+		r.Require("laws3d."+k+".inverse_after_apply", 1000)
+		r.Require("laws3d."+k+".apply_after_inverse", 1000)
+		r.Require("laws3d."+k+".bounds_points", 5000)
+		r.Require("toolbox."+k+".monotone_pairs", 1000)
+		r.Require("toolbox."+k+".off_axis", 1000)
+	}
+	for _, k := range []string{"translate", "scale", "rotation", "joined"} {
+		r.Require("laws3d."+k+".distance_pairs", 1000)
+		r.Require("laws2d."+k+".distance_pairs", 1000)
+	}
+	r.Require("toolbox.squeeze.slope_pairs", 1000)
+	r.Require("toolbox.pinch.doc_points", 1000)
+	r.Require("toolbox.smart.stretch_pairs.squeezable", 500)
+	r.Require("toolbox.smart.stretch_pairs.unsqueezable", 500)
+	for _, d := range []string{"3d", "2d"} {
+		r.Require("solid"+d+".membership", 5000)
+		r.Require("solid"+d+".membership.inside", 1000)
+		r.Require("solid"+d+".spy_queries", 5000)
+		r.Require("sdf"+d+".values", 5000)
+		r.Require("sdf"+d+".spy_queries", 1000)
+		r.Require("collider"+d+".spy_rays", 2000)
+		r.Require("collider"+d+".spy_first", 2000)
+		r.Require("collider"+d+".spy_balls", 2000)
+		r.Require("collider"+d+".spy_nil_callback_with_hits", 1000)
+		r.Require("collider"+d+".rays", 5000)
+		r.Require("collider"+d+".rays.hits2", 1000)
+		r.Require("collider"+d+".first", 5000)
+		r.Require("collider"+d+".balls", 5000)
+		r.Require("metaball"+d+".field", 5000)
+		r.Require("metaball"+d+".dist_bound", 5000)
+		r.Require("metaball"+d+".bounds_points", 500)
+		r.Require("mc"+d+".cases", 100)
+		r.Require("mc"+d+".vertices_probed", 2000)
+	}
+	r.Require("mesh3d.transform", 100)
+	r.Require("mesh3d.rotate", 100)
+	r.Require("colorfunc.queries", 500)
+
 	r.Finish()
 }
 
@@ -30,22 +77,22 @@ func conjSections(r *vlib.Run) {
 	distT := func(c *vlib.Case, dim int) *spec {
 		return genSpec(c.Rng, genOpts{dim: dim, distOnly: true, depth: 2, mild: true})
 	}
-	r.Section("solid3d", r.N(6000, 120000), vlib.SectionOpts{}, func(c *vlib.Case) {
+	r.Section("solid3d", r.N(18000, 220000), vlib.SectionOpts{}, func(c *vlib.Case) {
 		checkSolid(c, 3, anyT(c, 3), genSolid3(c.Rng))
 	})
-	r.Section("solid2d", r.N(4000, 80000), vlib.SectionOpts{}, func(c *vlib.Case) {
+	r.Section("solid2d", r.N(12000, 150000), vlib.SectionOpts{}, func(c *vlib.Case) {
 		checkSolid(c, 2, anyT(c, 2), genSolid2(c.Rng))
 	})
-	r.Section("sdf3d", r.N(4000, 80000), vlib.SectionOpts{}, func(c *vlib.Case) {
+	r.Section("sdf3d", r.N(12000, 150000), vlib.SectionOpts{}, func(c *vlib.Case) {
 		checkSDF(c, 3, distT(c, 3), genSDF3(c.Rng))
 	})
-	r.Section("sdf2d", r.N(3000, 60000), vlib.SectionOpts{}, func(c *vlib.Case) {
+	r.Section("sdf2d", r.N(9000, 110000), vlib.SectionOpts{}, func(c *vlib.Case) {
 		checkSDF(c, 2, distT(c, 2), genSDF2(c.Rng))
 	})
-	r.Section("collider3d", r.N(6000, 120000), vlib.SectionOpts{}, func(c *vlib.Case) {
+	r.Section("collider3d", r.N(18000, 220000), vlib.SectionOpts{}, func(c *vlib.Case) {
 		checkCollider(c, 3, distT(c, 3), genCollider3(c.Rng), "SphereCollision")
 	})
-	r.Section("collider2d", r.N(4000, 80000), vlib.SectionOpts{}, func(c *vlib.Case) {
+	r.Section("collider2d", r.N(12000, 150000), vlib.SectionOpts{}, func(c *vlib.Case) {
 		checkCollider(c, 2, distT(c, 2), genCollider2(c.Rng), "CircleCollision")
 	})
 	metaT := func(c *vlib.Case, dim int) *spec {
@@ -54,10 +101,10 @@ func conjSections(r *vlib.Run) {
 		}
 		return distT(c, dim)
 	}
-	r.Section("metaball3d", r.N(4000, 80000), vlib.SectionOpts{}, func(c *vlib.Case) {
+	r.Section("metaball3d", r.N(12000, 150000), vlib.SectionOpts{}, func(c *vlib.Case) {
 		checkMeta(c, 3, metaT(c, 3), genMeta3(c.Rng))
 	})
-	r.Section("metaball2d", r.N(3000, 60000), vlib.SectionOpts{}, func(c *vlib.Case) {
+	r.Section("metaball2d", r.N(9000, 110000), vlib.SectionOpts{}, func(c *vlib.Case) {
 		checkMeta(c, 2, metaT(c, 2), genMeta2(c.Rng))
 	})
 }
